@@ -67,11 +67,24 @@ def pred_key(h):
     return (h[1], len(h[2]) if h[0] == 's' else 0)
 
 
+def exports_cut(t):
+    """can running t cut the enclosing clause? a cut at the control level, not counting the conditions
+    of if-then(-else), where a cut is local (ISO 7.8.8)."""
+    if t == C07.CUT:
+        return True
+    if t[0] == 's' and len(t[2]) == 2:
+        if t[1] in (',', ';'):
+            return exports_cut(t[2][0]) or exports_cut(t[2][1])
+        if t[1] == '->':
+            return exports_cut(t[2][1])
+    return False
+
+
 def wrap_calls(b):
-    """every conjunct of the body's top-level conjunction without a control-level cut => call(G)."""
+    """every conjunct of the body's top-level conjunction that cannot cut the clause => call(G)."""
     if b[0] == 's' and b[1] == ',' and len(b[2]) == 2:
         return S(',', wrap_calls(b[2][0]), wrap_calls(b[2][1]))
-    if b == TRUE or C07.has_top_cut(b):
+    if b == TRUE or exports_cut(b):
         return b
     return S('call', b)
 
@@ -145,10 +158,13 @@ def esc(text):
     return text.replace("\\", "\\\\").replace("\n", "\\n")
 
 
-def make_case(rng, cid):
-    g = C07.Gen(rng, cid)
-    clauses = g.program()
-    queries = g.queries(3)
+def make_case(rng, cid, given=None):
+    if given is None:
+        g = C07.Gen(rng, cid)
+        clauses = g.program()
+        queries = g.queries(3)
+    else:
+        clauses, queries = given
     allc = clauses + queries
     keys = []
     for h, _b in allc:
@@ -212,20 +228,32 @@ def make_case(rng, cid):
             "text": "\n".join(C07.clause_pl(c) for c in allc), "impl": impl, "model": model, "seed_state": None}
 
 
+def directed(cid):
+    """the hand-written C07 programs (cut in every position, allocator shapes, exceptions, meta-calls)
+    in all presentations."""
+    d = [x for x in C07.directed_cases() if x["id"] == cid][0]
+    allc = d["clauses"]
+    import random
+    c = make_case(random.Random(7), cid, (allc[:len(allc) - d["nq"]], allc[len(allc) - d["nq"]:]))
+    c["case_seed"] = 0
+    return c
+
+
 def run(ctx):
     rng, tier = ctx["rng"], ctx["tier"]
     t0 = time.time()
     rep = diff.replay_case(ctx)
     if rep is not None:
         import random
-        cases = [make_case(random.Random(c["case_seed"]), c["id"]) for c in rep]
+        cases = [directed(c["id"]) if c["case_seed"] == 0 else make_case(random.Random(c["case_seed"]), c["id"])
+                 for c in rep]
         for c, r in zip(cases, rep):
             c["case_seed"] = r["case_seed"]
     else:
-        n = 160 if tier == "quick" else 3000
+        n = 120 if tier == "quick" else 2500
         n = int(os.environ.get("C08_N", n))
-        cases = []
         import random
+        cases = [directed(d["id"]) for d in C07.directed_cases()]
         for i in range(n):
             sd = rng.getrandbits(48)
             c = make_case(random.Random(sd), "k%d" % i)
